@@ -11,7 +11,7 @@ import os
 from fractions import Fraction
 from typing import Dict, List, Optional, Tuple
 
-from ..core import AnalysisError, Func, Ob, dotted, need, ob, short, src, walk_no_nested
+from ..core import AnalysisError, Func, Ob, dotted, need, ob, short, src, walk_no_nested, kw
 from ..runner import Ctx, rule
 
 
@@ -28,6 +28,10 @@ _NORET = object()
 
 class StateDependence(Exception):
     """the benchmark reads or writes module-level mutable state: it is not a function of x alone"""
+
+
+class PiecewiseDefinition(Exception):
+    """the benchmark (or its gradient) is defined by cases on the value of the point"""
 
 
 class Translator:
@@ -332,12 +336,14 @@ class Translator:
         if isinstance(t, ast.Compare) and len(t.ops) == 1:
             a, b = self.ev(t.left), self.ev(t.comparators[0])
             if isinstance(a, SymArr) or isinstance(b, SymArr) or not (a.is_number and b.is_number):
-                self.err(t, "branch on a value that depends on x")
+                raise PiecewiseDefinition(f"{self.f.name} branches on `{short(t, 50)}`, a test on the point (line {getattr(t, 'lineno', '?')})")
             ops = {ast.Lt: lambda x, y: x < y, ast.LtE: lambda x, y: x <= y, ast.Gt: lambda x, y: x > y, ast.GtE: lambda x, y: x >= y,
                    ast.Eq: lambda x, y: sp.simplify(x - y) == 0, ast.NotEq: lambda x, y: sp.simplify(x - y) != 0}
             if type(t.ops[0]) not in ops:
                 self.err(t, "comparison operator")
             return bool(ops[type(t.ops[0])](a, b))
+        if any(isinstance(x_, ast.Name) and x_.id in self.env and isinstance(self.env.get(x_.id), SymArr) for x_ in ast.walk(t)):
+            raise PiecewiseDefinition(f"{self.f.name} branches on `{short(t, 50)}`, a test on the point (line {getattr(t, 'lineno', '?')})")
         self.err(t, "branch condition")
 
     def store(self, t: ast.Subscript, v, op, node):
@@ -473,6 +479,9 @@ def rule_ad(ctx: Ctx) -> List[Ob]:
                     break
         except StateDependence as e:
             bad = str(e)
+        except PiecewiseDefinition as e:
+            bad = str(e) + ": the function and its gradient are compared as one formula each; a definition by cases on the value of the point " \
+                           "changes the function on a set the formula of the gradient does not know about"
         obs.append(ob("AD", f"{nm}_grad is the gradient of {nm} for n = 1..{N}", g, g.node, bad is None,
                       bad or f"{dims} dimensions, all components: " + "; ".join(sorted(how)),
                       construct=f"d {nm} / dx == {nm}_grad  (n = 1..{N})"))
@@ -522,6 +531,27 @@ def rule_arrlike(ctx: Ctx) -> List[Ob]:
                 if isinstance(par, ast.Call) and x in par.args and (dotted(par.func) or "").startswith("np."):
                     continue
                 raw.append(x)
+        # a benchmark is a formula in x: it neither looks at the memory layout of its argument nor changes its number type
+        # (complex-step differencing feeds complex points), nor is it defined piecewise by a test on the point
+        for c in ast.walk(n):
+            if isinstance(c, ast.Call):
+                dn = dotted(c.func) or ""
+                last = dn.split(".")[-1]
+                if last in ("as_strided", "frombuffer", "ndarray", "getbuffer") or "stride_tricks" in dn or \
+                        (isinstance(c.func, ast.Attribute) and c.func.attr in ("view", "tobytes", "setflags") and not dn.startswith("np.")):
+                    obs.append(Ob("ARRLIKE", "the benchmark does not depend on the memory layout of the point", m.rel, c.lineno, f"benchmarks.{n.name}",
+                                  short(c, 50), False, f"`{short(c, 60)}` reads raw memory: a non-contiguous view of the same numbers gives another result"))
+                if (isinstance(c.func, ast.Attribute) and c.func.attr == "astype" and not dn.startswith("np.") and c.args and
+                        (dotted(c.args[0]) or src(c.args[0])) in ("np.float64", "float", "np.float32", "np.double", "np.float_", "'float64'", "'float'")) or \
+                        dn in ("np.real", "np.float64", "np.asfarray") or \
+                        (dn in ("np.asarray", "np.array") and kw(c, "dtype") is not None and src(kw(c, "dtype")) in ("float", "np.float64", "np.double")):
+                    obs.append(Ob("ARRLIKE", "the benchmark keeps the number type of the point (it stays complex-analytic)", m.rel, c.lineno, f"benchmarks.{n.name}",
+                                  short(c, 50), False, f"`{short(c, 60)}` casts to a real type: the imaginary part of a complex-step probe is dropped, the "
+                                  f"'cs' finite-difference mode returns a zero gradient"))
+            if isinstance(c, ast.Attribute) and c.attr in ("real", "strides", "itemsize", "ctypes", "data") and isinstance(c.ctx, ast.Load) and \
+                    isinstance(c.value, ast.Name) and c.value.id == p:
+                obs.append(Ob("ARRLIKE", "the benchmark does not depend on the memory layout of the point", m.rel, c.lineno, f"benchmarks.{n.name}",
+                              short(c, 50), False, f"`{short(c, 40)}`: memory layout / real part of the argument"))
         if n.name.endswith("_grad"):
             # the gradient has the shape of x for every n, n = 1 included: nothing on the way to the return may drop axes
             drops = [c for c in ast.walk(n) if isinstance(c, ast.Call) and (
